@@ -2,6 +2,7 @@ package fo
 
 import (
 	"fmt"
+	"regexp"
 	"sort"
 	"strings"
 )
@@ -341,6 +342,8 @@ func withIn(b map[string]bool, names ...string) map[string]bool {
 	}
 	return m
 }
+
+var placeholder = regexp.MustCompile(`^f[ab]\d+$`)
 
 var fmtOf = map[Type]string{"int": "%d", "string": "%s", "bool": "%v"}
 
@@ -746,7 +749,13 @@ func init() {
 	}})
 	add(prod{name: "interp-first-in-statement", app: is("unit"), mk: func(g *Gen, t Type, env Env2, fuel, pos int) Expr {
 		// a unit statement that begins with an interpolated string: $"n={n}!" |> say  (n must be a variable in scope)
-		ns := env.ofType("int")
+		var ns []string
+		for _, n := range env.ofType("int") {
+			// projections r.A travel as placeholder variables (field-of-var) and cannot be written in a hole
+			if !placeholder.MatchString(n) {
+				ns = append(ns, n)
+			}
+		}
 		if len(ns) == 0 || fuel != 1 {
 			g.C.Skip("needs an int variable and exactly one construct")
 		}
